@@ -250,6 +250,12 @@ def check(ctx):
     if not found:
         ctx.missing(opt, "termination message naming tol_mesh")
     tol_mesh_snapping(ctx, prog, R)
+    # ------------------------------------------------------------------ R6
+    ctx.rule("R6", "in the noise modes the poll's success is judged on the GP estimate: the poll step decides the noise mode from the run-time level", floor=1)
+    from .c05 import _noise_mode_reads
+
+    _noise_mode_reads(ctx, prog, R, only_fn=poll)
+
     # ------------------------------------------------------------------ R5
     from . import meshflow
 
